@@ -193,6 +193,11 @@ def make_transcoder(
         )
     
     # begin
+    # every data stream is read from its beginning (an earlier export 
+    # of the same sample leaves its cursor at the end)
+    for data_stream in data_streams:
+        data_stream.stream.seek(0, 0)
+
     buffer_sizes = get_buffer_sizes(data_streams)
 
     if len(data_streams) == 1 \
